@@ -57,12 +57,30 @@ class CallbackMonitor(DeliveryMonitor):
 def scenario(params, ch):
     direction, msgs, blackout, longframe, order, latency = params
     mon = CallbackMonitor()
-    w = World(order=order, latency=latency, chooser=ch, monitors=[mon])
+    dt = msgs[0][3] if msgs and msgs[0][0] == "stream" else 1.0 / 64
+    w = World(order=order, latency=latency, chooser=ch, monitors=[mon], dt=dt)
     sender = direction[0]
     try:
         w.run_until_connected()
         w.run(2)
         w.fates = FATES
+        if msgs and msgs[0][0] == "stream":
+            # a stream: one unretried message per tick, so that > 32 datagrams are outstanding
+            # while the acks are held back by the blackout parameter
+            _, n, retry, _dt = msgs[0]
+            if blackout:
+                w.start_blackout(blackout[0], blackout[2])
+                blackout = None
+            w.fates = ["drop", "delay8"]
+            for i in range(n):
+                tag = "m%d" % i
+                data = payload(i + 1, 24)
+                mon.sends[tag] = (sender, data, retry, w.vt.now, "single")
+                app_send(w, mon, sender, data, retry, tag=tag)
+                if i == n - 4:
+                    w.fates = []
+                w.run(1)
+            msgs = ()
         for i, (size, retry) in enumerate(msgs):
             tag = "m%d" % i
             data = payload(i + 1, SIZES[size])
@@ -81,9 +99,10 @@ def scenario(params, ch):
         w.run(4)
         w.fates = []
         # settle: all retries, timeouts (1 s) and late deliveries (70 ticks) done
-        w.run(160)
-        w.run(200, quiescent)
-        w.run(70)  # > timeout: every datagram resolved
+        k = (1.0 / 64) / w.dt
+        w.run(int(160 * k))
+        w.run(int(200 * k), quiescent)
+        w.run(int(70 * k) + 1)  # > timeout: every datagram resolved
         ch.steps = w.tickno
         c_ok = w.clients[0].conn is not None and w.clients[0].conn.status == ConnectionStatus.CONNECTED
         s_ok = w.server_conn(0) is not None and w.server_conn(0).status == ConnectionStatus.CONNECTED
@@ -133,6 +152,9 @@ def params_list(tier):
         longframes = [0, 0.25, 1.2]
     for direction in ("c2s", "s2c"):
         data_dir, ack_dir = (("c2s", "s2c") if direction == "c2s" else ("s2c", "c2s"))
+        # frame 1/50 s > send_interval: one datagram per tick, 45 outstanding within 0.9 s < timeout
+        for n, bl in ((45, 38), (45, 0), (48, 44)) if tier == "thorough" else ((45, 38),):
+            out.append((direction, (("stream", n, "none", 0.02),), (ack_dir, 0, bl) if bl else None, 0, "cs", 1))
         for msgs in msg_sets:
             for b in blackouts:
                 if b is not None:
